@@ -450,14 +450,7 @@ func (o *origin) cacheBytes(blob int) (data []byte, ok bool, viaDisk bool) {
 			return b, true, false
 		}
 	}
-	var found string
-	filepath.Walk(filepath.Join(o.w.dir, "cache"), func(p string, info os.FileInfo, err error) error {
-		if err == nil && info.IsDir() && info.Name() == hex {
-			found = filepath.Join(p, base.DefaultDataFileName)
-			return filepath.SkipDir
-		}
-		return nil
-	})
+	found := o.diskPath(blob)
 	if found == "" {
 		return nil, false, true
 	}
@@ -466,6 +459,36 @@ func (o *origin) cacheBytes(blob int) (data []byte, ok bool, viaDisk bool) {
 		return nil, false, true
 	}
 	return b, true, true
+}
+
+// persistFlagOnDisk reports whether the blob's directory in the cache holds a
+// persist flag that says true. Only used to tell findings apart, never as an oracle.
+func (o *origin) persistFlagOnDisk(blob int) bool {
+	p := o.diskPath(blob)
+	if p == "" {
+		return false
+	}
+	b, err := os.ReadFile(filepath.Join(filepath.Dir(p), "_persist"))
+	return err == nil && strings.TrimSpace(string(b)) == "true"
+}
+
+// diskPath finds the blob's data file under the cache directory ("" if absent).
+func (o *origin) diskPath(blob int) string {
+	hex := blobDig[blob].Hex()
+	var found string
+	filepath.Walk(filepath.Join(o.w.dir, "cache"), func(p string, info os.FileInfo, err error) error {
+		if err == nil && info.IsDir() && info.Name() == hex {
+			found = filepath.Join(p, base.DefaultDataFileName)
+			return filepath.SkipDir
+		}
+		return nil
+	})
+	if found != "" {
+		if _, err := os.Stat(found); err != nil {
+			return ""
+		}
+	}
+	return found
 }
 
 // dump lists the cache tree and the write-back table (for violation reports).
@@ -522,6 +545,9 @@ type ackInfo struct {
 	// yet a write-back task for the same (namespace, blob) was stored just before the
 	// request — the left-over of an earlier commit that failed after adding its task.
 	staleTask bool
+	// What was seen on disk while the blob was cached and not yet in its backend
+	// (classification of findings only): its persist flag set / not set.
+	flagSetSeen, flagMissingSeen bool
 }
 
 // beforeSample is what the harness reads from the write-back table just before a request.
@@ -654,6 +680,13 @@ func runOnce(c Case) (out outcome) {
 				if viaDisk {
 					cls["store-api-missed-blob-that-is-on-disk"] = true
 				}
+				if _, late := w.backends[a.ns].get(blobDig[a.blob].Hex()); !late {
+					if o.persistFlagOnDisk(a.blob) {
+						acked[a].flagSetSeen = true
+					} else if _, late2 := w.backends[a.ns].get(blobDig[a.blob].Hex()); !late2 {
+						acked[a].flagMissingSeen = true
+					}
+				}
 				continue
 			}
 			// The write-back may have finished between the two reads (upload done, persist
@@ -670,7 +703,7 @@ func runOnce(c Case) (out outcome) {
 			// Classify the circumstances (first line = signature used for known findings).
 			other := ack{ns: 1 - a.ns, blob: a.blob}
 			switch {
-			case info.staleTask:
+			case info.staleTask && info.flagSetSeen && !info.flagMissingSeen:
 				sig += " " + staleLabel
 			case info.racedOther:
 				sig += " " + raceLabel
@@ -964,7 +997,7 @@ func runOnce(c Case) (out outcome) {
 			out.liveness = strings.Join(missing, "; ")
 			out.livenessStale = true
 			for a, info := range acked {
-				if !inBackend(a) && !info.staleTask {
+				if !inBackend(a) && !(info.staleTask && info.flagSetSeen && !info.flagMissingSeen) {
 					out.livenessStale = false
 				}
 			}
